@@ -197,7 +197,7 @@ EXT3 = {
     "C02": "Later rounds: make_traceless variants of the graph embeddings; a beamsplitter embedded on every ordered pair of modes (adjacent or not) and products of two in the interferometer family.",
     "C08": "Later rounds: backend.state(modes=...) with a deleted / unknown index mixed with an active mode on either side.",
     "C14": "Later rounds: TDM programs with 10-23 loop variables, daggered gates and expressions of loop variables, run / backend options of TDM programs; operations on modes 10 and 11 of a 12-mode register.",
-    "C05": "Later rounds: post-selected measurements on entangled bosonic cat states (spectator judged against the dense Fock reference).",
+    "C05": "Later rounds: post-selected measurements on entangled bosonic cat states (spectator judged against the dense Fock reference); conditional update of the unmeasured mode on the Fock simulator (photon counting with every answer, homodyne post-selected on positive, zero and negative values) on entangled two-mode states.",
     "C06": "Later rounds: the rejection sampler of the bosonic simulator on non-Gaussian states (real- and complex-representation cat states, Fock(2), GKP; alone or entangled; either mode; homodyne at 3 angles and heterodyne): every peak the sampler can pick and 44 answered heights per phase-space point locate the acceptance probability; acceptance x proposal density (reconstructed from the arguments of the draws) must be proportional to the Born density; returned value and conditional mixture for the accepted point. Measurements after a mode deletion: every measurement of a menu on a surviving mode of a 3-mode register against the same measurement on a fresh two-mode twin (all simulators, every deleted mode); column order of Result.samples on a 12-mode register.",
     "C07": "Later rounds: GKP states on the Fock simulator.",
     "C09": "Later rounds: the state after reset + re-run must equal a fresh engine's.",
